@@ -252,6 +252,22 @@ def run_for(pid, verbose=True):
             new, err = analyse(pid, overlay)
             results.append(_judge(f"seeded/{name}", expect, new, err,
                                   failures))
+    # every repair made to /repo, undone: the reverse of each `fix:` commit is
+    # kept as a patch; the defect must be reported again if it ever returns
+    rdir = os.path.join(VERIF, "selftest", "reverts")
+    if os.path.isdir(rdir):
+        for name in sorted(os.listdir(rdir)):
+            if not (name.startswith(pid + "_") and name.endswith(".diff")):
+                continue
+            with open(os.path.join(rdir, name), encoding="utf-8") as fin:
+                overlay = apply_unified_diff(fin.read())
+            label = f"fix {name[4:-5]} undone"
+            if overlay is None:
+                results.append((label, "skipped: patch does not apply to "
+                                "the current tree"))
+                continue
+            new, err = analyse(pid, overlay)
+            results.append(_judge(label, "fires:" + pid, new, err, failures))
     # behaviour-preserving twin of the whole tree: every non-test module
     # re-generated from its syntax tree (comments gone, layout, quoting and
     # parenthesisation changed).  A rule that matched source text rather
